@@ -86,6 +86,49 @@ def sc_late_spawn(hasprimary=True, backend="thread"):
     return sc.finish()
 
 
+def sc_one_user(hasprimary=True, backend="thread", waitall_first=True):
+    """one user thread: spawn, spawn, [waitall - both finished?], terminate.  The second spawn, the waitall registration and the shutdown
+    race the finishing first task (in the primary thread or a worker), at every shared access."""
+    tasks = {"TASK0": "return", "TASK1": "return"}
+    sc = e2.PoolScenario(f"one_user[primary={hasprimary},{backend},waitall_first={waitall_first}]", hasprimary, backend, tasks, nreplies=2, nworkers=2)
+    src = "def p(pool):\n    r0 = pool.spawn(TASK0)\n    G.acc_TASK0 = 1\n    r1 = pool.spawn(TASK1)\n    G.acc_TASK1 = 1\n"
+    if waitall_first:
+        src += "    x = pool.waitall(None)\n    if G.fin_TASK0 == 0:\n        G.bad_waitall = 1\n    if G.fin_TASK1 == 0:\n        G.bad_waitall = 1\n    G.wa_ret = 1\n"
+    src += "    y = pool.terminate(None)\n    if G.fin_TASK0 == 0:\n        G.bad_waitall = 1\n    if G.fin_TASK1 == 0:\n        G.bad_waitall = 1\n    G.term = 1\n"
+    sc.add("user", src, {"pool": sc.pool})
+    for t in tasks:
+        sc.bad += [("ran_twice", t), ("lost", f"acc_{t}", t)]
+        sc.observed += [f"acc_{t}", f"ran_{t}", f"fin_{t}"]
+    sc.bad += [("blocked", "user"), ("uncaught", "user", []), ("flag", "bad_waitall")]
+    sc.good_flags += ["term"] + (["wa_ret"] if waitall_first else [])
+    sc.observed += ["wa_ret", "term", "bad_waitall"]
+    if hasprimary:
+        sc.bad += [("blocked", "primary"), ("uncaught", "primary", [])]
+        sc.good_flags += ["prim_exit"]
+        sc.observed += ["prim_exit"]
+    return sc.finish()
+
+
+def sc_two_spawners(hasprimary=True, backend="thread"):
+    """two user threads spawn one task each at the same time (racing for the primary thread's one-slot mailbox), then the pool is terminated"""
+    tasks = {"TASK0": "return", "TASK1": "return"}
+    sc = e2.PoolScenario(f"two_spawners[primary={hasprimary},{backend}]", hasprimary, backend, tasks, nreplies=2, nworkers=2)
+    for t in tasks:
+        sc.add(f"spawn_{t}", SPAWN.format(task=t), {"pool": sc.pool})
+        sc.bad += [("ran_twice", t), ("lost", f"acc_{t}", t), ("uncaught", f"spawn_{t}", []), ("blocked", f"spawn_{t}")]
+        sc.observed += [f"acc_{t}", f"ran_{t}", f"fin_{t}"]
+    sc.add("closer", "def p(pool):\n    await_(G.acc_TASK0 == 1)\n    await_(G.acc_TASK1 == 1)\n"
+                     "    y = pool.terminate(None)\n    if G.fin_TASK0 == 0:\n        G.bad_waitall = 1\n    if G.fin_TASK1 == 0:\n        G.bad_waitall = 1\n    G.term = 1\n", {"pool": sc.pool})
+    sc.bad += [("blocked", "closer"), ("uncaught", "closer", []), ("flag", "bad_waitall")]
+    sc.good_flags += ["term"]
+    sc.observed += ["wa_ret", "term", "bad_waitall"]
+    if hasprimary:
+        sc.bad += [("blocked", "primary"), ("uncaught", "primary", [])]
+        sc.good_flags += ["prim_exit"]
+        sc.observed += ["prim_exit"]
+    return sc.finish()
+
+
 def specs(tier: str):
     thorough = tier == "thorough"
     out = []
@@ -103,7 +146,10 @@ def specs(tier: str):
         add("sc_results", 0, kinds=(kind,), hasprimary=False, backend="thread", waiter=(kind == "value"))
     add("sc_results", 0, kinds=("value",), hasprimary=True, backend="thread", waiter=False)
     add("sc_results", 0, kinds=("raise",), hasprimary=True, backend="main_thread_only", waiter=False)
+    add("sc_two_spawners", 0, hasprimary=True, backend="thread")
+    out[-1]["sync_granularity"] = not thorough
     if thorough:
+        add("sc_two_spawners", 0, hasprimary=False, backend="thread")
         for hp in (True, False):
             for be in ("thread", "main_thread_only"):
                 add("sc_shutdown_race", 0, hasprimary=hp, backend=be, ntasks=2)
@@ -130,7 +176,7 @@ def run(tier: str) -> Outcome:
             "a finite timeout fires only in states where no thread can take a non-timeout step",
             "tracing calls are no-ops",
         ],
-        bounds=("scenarios: spawn racing trigger_shutdown+waitall(None) with 1 task (thorough 2), spawn after shutdown, Reply.get of a returning / "
+        bounds=("scenarios: spawn racing trigger_shutdown+waitall(None) with 1 task (thorough 2), two concurrent spawners + waitall + terminate (quick: context switches at synchronisation operations), spawn after shutdown, Reply.get of a returning / "
                 "raising / blocked-then-released task (get with timeout first) with a concurrent waitall caller, with primary thread + terminate (thorough: two tasks); pools with and without integrated primary "
                 "thread, backends thread and main_thread_only (spawner gated as in the statement); unbounded preemptions; depth K per scenario with a "
                 "passing unwinding assertion (no thread can move at depth K)"),
